@@ -477,3 +477,12 @@ Definition used_sum (l : list node) : Z :=
   fold_right (fun n a => if resident n then (Z.of_N (n_size n) + a)%Z else a) 0%Z l.
 Definition size_sum (l : list node) : Z :=
   fold_right (fun n a => (Z.of_N (n_size n) + a)%Z) 0%Z l.
+
+(* what a live handle points to, and Handle.Value() *)
+Definition handle_node (s : state) (h : N) : option node :=
+  match find (fun p => fst p =? h) (s_handles s) with
+  | Some p => find_id (snd p) (s_nodes s)
+  | None => None
+  end.
+Definition handle_value (s : state) (h : N) : option N :=
+  match handle_node s h with Some n => n_val n | None => None end.
